@@ -47,7 +47,7 @@ ASSUMPTIONS = [
 ]
 
 EXTS = ['', '.txt', '.mib', '.my', '.TXT', '.MIB', '.MY']
-NAMES = ['IF-MIB', 'Mixed-Case-MIB', 'plain', 'SNMPv2-SMI', 'ACME-MIB-EXT', 'A']
+NAMES = ['IF-MIB', 'Mixed-Case-MIB', 'plain', 'SNMPv2-SMI', 'ACME-MIB-EXT', 'A', 'acme-mib', 'lower-mib-ext']
 
 
 def doc_variants(name, fuzzy, exts=EXTS):
